@@ -1,4 +1,75 @@
-import DisjointImpls.Lemmas.Refine
+/-
+  C03 — acceptance: inputs the macro must accept. Property theorem over `parseGroups` (`Group.lean`); the proof is
+  in `Lemmas/GroupLemmas.lean` (`searchRec_single`, `filterCandidate_single`, `mkBuckets_single`).
+
+  `C03_single_bucket_accepts`: blocks that all have the same header (one bucket), each with exactly one trait bound
+  `bounded: tr_i<a = p_i>` whose trait paths are pairwise equal as dispatch keys (`TraitBound::eq`, bindings
+  ignored), with pairwise non-generalising payloads `p_i`, are accepted as one family containing all the blocks in
+  order, with a single key and one row per block — for any number of blocks. The trait path stored with the key
+  is the last block's (`lastTr`), as in the code. Side conditions: the blocks are pairwise different texts
+  (`Nodup`, else the later one replaces the earlier), and the header matches itself with identity bindings only
+  (`selfIdentity`, executable).
+-/
+import DisjointImpls.Lemmas.GroupLemmas
+import DisjointImpls.Props.C11
 namespace DI
-theorem C03_placeholder : (1 : Nat) = 1 := rfl
+
+theorem C03_single_bucket_accepts (items : List T) (gid bounded : T) (a : String) (trOf pay : Blk → T)
+    (b1 : Blk) (other : List Blk) (hB : items.map mkBlk = b1 :: other)
+    (hid : ∀ b ∈ b1 :: other, groupIdOf b.item = gid) (hnd : ((b1 :: other).map (·.item)).Nodup)
+    (hsb : ∀ b ∈ b1 :: other, ∃ mb, b.raw = [⟨bounded, trOf b, [(a, pay b)], mb⟩])
+    (htr : ∀ b ∈ b1 :: other, ∀ b' ∈ b1 :: other, tbEq (trOf b) (trOf b') = .t)
+    (hself : selfIdentity gid = true) (hng : nonGenB ((b1 :: other).map pay) = true) :
+    ∃ u, parseGroups items =
+      .ok [(gid, ⟨[((bounded, lastTr trOf (trOf b1) other), (b1 :: other).map (fun b => [(a, pay b)]))], u⟩, b1 :: other)] :=
+  parseGroups_single_bucket items gid bounded a trOf pay b1 other hB hid hnd hsb htr hself (nonGen_of_nonGenB hng)
+
+/-- what `nonGenB` says: no payload generalises another one -/
+theorem C03_nonGen_spec (ps : List T) (h : nonGenB ps = true) (i j : Nat) (x y : T) (hij : i ≠ j)
+    (hx : ps[i]? = some x) (hy : ps[j]? = some y) : ∀ σ l, sup x y ≠ .yes σ l := by
+  intro σ l hs
+  have := nonGen_of_nonGenB h i j x y hij hx hy
+  rw [hs] at this
+  cases this
+
+set_option maxRecDepth 1000000 in
+/-- non-vacuity: the README example (`impl<T: Dispatch<Group = GroupA>> Kita for T`, `… GroupB …`) satisfies every
+    hypothesis, so the theorem (not a computation) yields its acceptance -/
+theorem C03_readme_example :
+    ∃ u gid key b1 b2, parseGroups [Ex11.blockFor "GroupA", Ex11.blockFor "GroupB"] =
+      .ok [(gid, ⟨[(key, [[("Group", Ex11.tyPath [Ex11.seg "GroupA"])], [("Group", Ex11.tyPath [Ex11.seg "GroupB"])]])], u⟩, [b1, b2])] := by
+  let items := [Ex11.blockFor "GroupA", Ex11.blockFor "GroupB"]
+  let b1 := mkBlk (Ex11.blockFor "GroupA")
+  let b2 := mkBlk (Ex11.blockFor "GroupB")
+  let gid := groupIdOf b1.item
+  let pay : Blk → T := fun b => if b = b1 then Ex11.tyPath [Ex11.seg "GroupA"] else Ex11.tyPath [Ex11.seg "GroupB"]
+  let trOf : Blk → T := fun b => if b = b1 then Ex11.dispatch "GroupA" else Ex11.dispatch "GroupB"
+  have hne : b2 ≠ b1 := by with_unfolding_all decide
+  have e1 : pay b1 = Ex11.tyPath [Ex11.seg "GroupA"] := by simp [pay]
+  have e2 : pay b2 = Ex11.tyPath [Ex11.seg "GroupB"] := by simp [pay, hne]
+  have t1 : trOf b1 = Ex11.dispatch "GroupA" := by simp [trOf]
+  have t2 : trOf b2 = Ex11.dispatch "GroupB" := by simp [trOf, hne]
+  have h1 : b1.raw = [⟨.tparam "_ŠČ0", trOf b1, [("Group", pay b1)], false⟩] := by
+    rw [t1, e1]; with_unfolding_all decide
+  have h2 : b2.raw = [⟨.tparam "_ŠČ0", trOf b2, [("Group", pay b2)], false⟩] := by
+    rw [t2, e2]; with_unfolding_all decide
+  obtain ⟨u, hu⟩ := C03_single_bucket_accepts items gid (.tparam "_ŠČ0") "Group" trOf pay b1 [b2] rfl
+    (by intro b hb; simp only [List.mem_cons, List.mem_nil_iff, or_false] at hb
+        rcases hb with rfl | rfl
+        · rfl
+        · with_unfolding_all decide)
+    (by with_unfolding_all decide)
+    (by intro b hb; simp only [List.mem_cons, List.mem_nil_iff, or_false] at hb
+        rcases hb with rfl | rfl
+        · exact ⟨false, h1⟩
+        · exact ⟨false, h2⟩)
+    (by intro b hb b' hb'
+        simp only [List.mem_cons, List.mem_nil_iff, or_false] at hb hb'
+        rcases hb with rfl | rfl <;> rcases hb' with rfl | rfl <;> simp only [t1, t2] <;> decide)
+    (by with_unfolding_all decide)
+    (by simp only [List.map_cons, List.map_nil, e1, e2]; with_unfolding_all decide)
+  refine ⟨u, gid, (.tparam "_ŠČ0", lastTr trOf (trOf b1) [b2]), b1, b2, ?_⟩
+  rw [hu]
+  simp [e1, e2]
+
 end DI
